@@ -238,6 +238,7 @@ func checkC06(c *Check) {
 		if g != nil {
 			for _, zero := range []bool{true, false} {
 				b := NewAnalysis(p, g)
+				b.Init = p.closureInit(g)
 				b.AtomHook = func(e *Expr) (ISet, bool) {
 					if isHold(e) {
 						if zero {
